@@ -80,6 +80,7 @@ func initProperties() {
 				use("SIBLINGOPTS", "bulk getters honour ClearDirtyValues", thriftGeneric),
 				use("HDRUSED", "container header types checked", anyOf(thriftGeneric, thriftPkg)),
 				use("DESCSTEP", "descriptor follows the path step", thriftGeneric),
+				use("COUNTCMP", "index == count is out of range", anyOf(thriftGeneric, thriftPkg)),
 			)},
 		{ID: "C02", Title: "JSON->Thrift conversion encodes exactly the value the JSON denotes", QuickP: true,
 			Decides: "option plumbing into the native FSM (FLAGSYNC: every conv.Option that affects j2t reaches its own flag bit, flags recomputed after every options write), the native status is tested and handled (NATIVERET), and for the portable converter (config P): every JSON-kind case of doRecurse ends in a return (CASEEXIT), the portable code reads the same options the flag table maps (OPTAGREE), no error dropped (DROPERR), thrift type switch exhaustive (KINDEXH).",
@@ -96,6 +97,7 @@ func initProperties() {
 				use("POOLESCAPE", "result copied out of the pooled buffer", inPkgs("conv/j2t")),
 				use("CHDRAGREE", "flag/trap constants = C header", nil),
 				use("REQAFFINITY", "requiredness <-> option", inPkgs("conv/j2t")),
+				use("GUARDCOVER", "bytes added after a capacity guard fit the guard (zero values, injected base)", inPkgs("conv/j2t", "thrift")),
 			)},
 		{ID: "C03", Title: "Thrift->JSON conversion emits valid JSON denoting exactly the value",
 			Decides: "balanced `{}`/`[]` on every success path of the t2j walkers (JSONPAIR — a necessary condition of `never malformed JSON with a nil error`), member keys come from one FieldDescriptor accessor everywhere (KEYSRC), thrift type switches are exhaustive (KINDEXH), unknown fields are an error exactly when disallowed and are otherwise skipped (NEGPOLARITY, UNKNOWNSKIP), no error dropped (DROPERR), loops consume (LOOPPROGRESS).",
@@ -109,6 +111,7 @@ func initProperties() {
 				use("DROPERR", "errors propagate", inPkgs("conv/t2j")),
 				use("ERRSWALLOW", "errors propagate", inPkgs("conv/t2j")),
 				use("LOOPPROGRESS", "loops consume", inPkgs("conv/t2j")),
+				use("COUNTCMP", "element loops stop at the header count", inPkgs("conv/t2j")),
 				use("NILLOOKUP", "lookups checked", inPkgs("conv/t2j")),
 				use("NATIVEQUOTE", "string escaper retry contract", nil),
 				use("POOLESCAPE", "result copied out of the pooled buffer", inPkgs("conv/t2j")),
@@ -126,6 +129,7 @@ func initProperties() {
 				use("DROPERR", "errors propagate", func(o *Obl) bool { return thriftGeneric(o) && mutators(o) }),
 				use("KINDEXH", "key/type switches exhaustive", thriftGeneric),
 				use("SWAPBOTH", "multi-set sort permutes old and new nodes together", thriftGeneric),
+				use("COUNTCMP", "index == count addresses nothing", thriftGeneric),
 			)},
 		{ID: "C05", Title: "Thrift DOM load/marshal is lossless; DOM edits marshal as edited",
 			Decides: "the by-id slot threshold is compared identically at load, lookup and store (THRESHAGREE), PathNode.marshal covers every thrift type and writes headers before elements (KINDEXH, HDRFIRST), child-slice growth is bounded by the input (ALLOCBOUND), Marshal copies out of the pooled buffer (POOLESCAPE).",
@@ -157,6 +161,8 @@ func initProperties() {
 				use("CURSORBOUND", "cursor never jumps past the buffer; no 32-bit byte-count overflow", nil),
 				use("CONSTAFFINITY", "number formatter head-room (native writer must not overrun)", nil),
 				use("HDRUSED", "container header types checked", nil),
+				use("COUNTCMP", "no element read one past the header count", nil),
+				use("DEADCMP", "limit guards are not dead by type range", nil),
 				use("NATIVEQUOTE", "string escaper retry contract", nil),
 				use("NATIVERET", "native status / buffer window", nil),
 			)},
@@ -174,6 +180,7 @@ func initProperties() {
 				use("KINDEXH", "kind switches exhaustive", anyOf(protoGeneric, protoBinary)),
 				use("SIBLINGOPTS", "bulk getters honour ClearDirtyValues", protoGeneric),
 				use("DESCSTEP", "descriptor follows the path step", protoGeneric),
+				use("COUNTCMP", "index == count is out of range", protoGeneric),
 			)},
 		{ID: "C08", Title: "Protobuf->JSON conversion emits valid JSON denoting exactly the message",
 			Decides: "balanced JSON on every success path of p2j (JSONPAIR), every legal map-key kind is quoted (MAPKEYQUOTE), unsigned kinds are not routed through a signed formatter (SIGNCONV), the kind switch covers the 15 scalar kinds + MESSAGE (KINDEXH), list/map loops consume and stop on errors (LOOPPROGRESS, DROPERR), unknown = error iff disallowed (NEGPOLARITY).",
@@ -208,6 +215,7 @@ func initProperties() {
 				use("NEGPOLARITY", "unknown handling", inPkgs("conv/j2p")),
 				use("NILLOOKUP", "lookups checked", inPkgs("conv/j2p")),
 				use("GROWCOPY", "speculative length re-allocation keeps the payload", nil),
+				use("DEADCMP", "the nesting-depth limit is representable in the stack pointer type", inPkgs("conv/j2p")),
 				use("UNKNOWNSKIP", "disallow option honoured at every lookup", inPkgs("conv/j2p")),
 				use("POOLESCAPE", "result copied out of the pooled buffer", inPkgs("conv/j2p")),
 				use("POOLRESET", "pooled visitor state fully reset", inPkgs("conv/j2p")),
@@ -311,6 +319,7 @@ func initProperties() {
 				use("DROPERR", "errors propagate", inPkgs("thrift/annotation", "conv/t2j", "conv/j2t", "http")),
 				use("POOLESCAPE", "response body/result copied out of the pooled buffer", funcHas("HTTPConv", "thrift/annotation")),
 				use("REQAFFINITY", "requiredness <-> option in http fallback", inPkgs("conv/j2t", "conv/t2j")),
+				use("GUARDCOVER", "injected base bytes fit the reserved capacity", inPkgs("conv/j2t")),
 			)},
 		{ID: "C18", Title: "Native and portable implementations agree; text encoders are exact", QuickP: true,
 			Decides: "every native stub is bound in all three SIMD flavours with identical key sets and each flavour loads its own text (STUBTABLE), native and portable files are selected by exactly complementary build constraints (TAGPARTITION), the portable converter reads the options the native flags carry (OPTAGREE) and rejects kind mismatches on every path (CASEEXIT), native skip failure is an error like Go skip (NATIVERET).",
@@ -347,8 +356,10 @@ func initProperties() {
 				use("RECDEPTH", "recursion budget", thriftPkg),
 				use("TYPESWITCHAGREE", "unhashable map keys boxed by every decoder", thriftPkg),
 				use("HDRUSED", "container header types checked", thriftPkg),
+				use("COUNTCMP", "element loops stop at the header count", thriftPkg),
 				use("POOLRESET", "recycled protocol objects fully reset", thriftPkg),
 				use("WIDTHTABLE", "skip = read = write width", nil),
+				use("GUARDCOVER", "zero-value encodings fit the reserved capacity", thriftPkg),
 			)},
 		{ID: "C20", Title: "Protobuf wire codec agrees with the reference implementation",
 			Decides: "per kind, the descriptor-driven reader and writer use inverse wire primitives matching the spec incl. zig-zag (RWPAIR), unrolled varint stages follow the template (VARINTTEMPLATE), kind/wire tables = spec (KINDTABLE), option/flag arguments are passed in parameter order (ARGSWAP), map entries key=1/value=2 (MAPTAG), speculative lengths finished and writer errors propagated in WriteList/WriteMap/WriteMessageFields (SPECLENPAIR, DROPERR), no size panics (PANICARG).",
@@ -415,7 +426,7 @@ func writeManifest() {
 			Replay:     "./dgcheck.sh " + p.ID + " quick   # re-analyses /repo; {path} names the violated obligation (file:line, rule, path through the CFG)",
 			Engine:     "dgcheck",
 			Level: level{Category: "other",
-				Text: "Static analysis (go/types + go/ssa + VTA call graph) of /repo's current source. Structural necessary conditions of the property are decided on every path of every function in scope; the behaviour itself is not. Decided: " + p.Decides + " Not decided: " + p.NotDec,
+				Text:      "Static analysis (go/types + go/ssa + VTA call graph) of /repo's current source. Structural necessary conditions of the property are decided on every path of every function in scope; the behaviour itself is not. Decided: " + p.Decides + " Not decided: " + p.NotDec,
 				DesignRef: "DESIGN.md §3 (rules " + strings.Join(rs, ", ") + "), §4 " + p.ID},
 			LevelNote: "Trusted: go/packages, go/types, go/ssa, VTA call graph (x/tools v0.29.0); rule tables holding spec constants; exemptions.jsonl (one named construct each, with reason). Native machine code, sonic and the Go runtime are not analysed. Violations that reproduce as genuine defects are repaired by fix: commits or listed in known_findings.jsonl.",
 			Technique: "static analysis: " + strings.Join(rs, ", "),
